@@ -320,6 +320,8 @@ def rule_CC(run: Run) -> RuleResult:
             for p_ in missing:
                 res.add(f"{site}:drops {p_}", False, m.relpath, call.lineno,
                         f"{ast.unparse(call)[:90]} … does not pass '{p_}'" + (": the copy memoises on its own, the body runs once per copy" if p_ == "cache" else ""), nec)
+    if not any("dataset(...) rebuilt" in o.construct for o in res.obligations):
+        res.add("labrea:no dataset(...) rebuilt from the parts of another dataset", True, "", 0, "no call of the dataset factory reads two or more fields of one existing dataset", nec, trivial=True)
     res.count("sites", n_sites)
     return res
 
@@ -418,6 +420,40 @@ def rule_CF(run: Run) -> RuleResult:
     return res
 
 
+def _only_mapped_over_items(m, fn, param_key: str) -> bool:
+    """``fn`` is a private module-level function of one parameter (whose term is ``param_key``) and every mention of it in its module
+    is ``map(fn, <mapping>.items())`` or ``fn(item) for item in <mapping>.items()``: its argument is always a dictionary item."""
+    ps = fn.args.posonlyargs + fn.args.args
+    if not fn.name.startswith("_") or len(ps) != 1 or fn.args.kwonlyargs or fn.args.vararg or fn.args.kwarg:
+        return False
+    if param_key not in (ps[0].arg, f"name<{ps[0].arg}>", f"Sym({ps[0].arg})"):
+        return False
+
+    def items_call(x):
+        return isinstance(x, ast.Call) and isinstance(x.func, ast.Attribute) and x.func.attr == "items" and not x.args
+
+    uses = 0
+    parents = {}
+    for n_ in ast.walk(m.tree):
+        for c_ in ast.iter_child_nodes(n_):
+            parents[c_] = n_
+    for n_ in ast.walk(m.tree):
+        if not (isinstance(n_, ast.Name) and n_.id == fn.name and isinstance(n_.ctx, ast.Load)):
+            continue
+        par = parents.get(n_)
+        if isinstance(par, ast.Call) and astu.short_name(par) == "map" and len(par.args) == 2 and par.args[0] is n_ and items_call(par.args[1]):
+            uses += 1
+            continue
+        if isinstance(par, ast.Call) and par.func is n_ and len(par.args) == 1 and isinstance(par.args[0], ast.Name):
+            comp = parents.get(par)
+            if isinstance(comp, (ast.GeneratorExp, ast.ListComp, ast.SetComp)) and len(comp.generators) == 1 and items_call(comp.generators[0].iter) \
+                    and isinstance(comp.generators[0].target, ast.Name) and comp.generators[0].target.id == par.args[0].id:
+                uses += 1
+                continue
+        return False
+    return uses > 0
+
+
 def rule_VW(run: Run) -> RuleResult:
     """Value(x) wraps only what is known not to be an expression."""
     res = RuleResult("R-VW")
@@ -455,8 +491,10 @@ def rule_VW(run: Run) -> RuleResult:
                 if isinstance(x, Sym) and x.head == "kw:value" and x.args:
                     x = x.args[0]
                 xk = x.key()
-                if isinstance(x, (Const, Fn)) or (isinstance(x, Sym) and (x.head in ("ext", "name", "class", "global", "key") or xk.startswith(("key(", "fstr(", "call:str(", "call:repr(")))):
+                if isinstance(x, (Const, Fn)) or (isinstance(x, Sym) and (x.head in ("ext", "name", "class", "global", "key") or xk.startswith(("key(", "fstr(", "call:str(", "call:repr(", "call:functools.partial(", "partial(", "call:tuple(", "Seq[")))):
                     continue            # a literal, a function, a class of the standard library, a dictionary key: no expression
+                if cls is None and xk.startswith("proj0(") and isinstance(x, Sym) and x.args and _only_mapped_over_items(m, fn, x.args[0].key()):
+                    continue            # the key of a dictionary item handed to a private helper
                 at = Frame.atoms(p.conds[:e.ncond])
                 decided = at.get(f"call:isinstance({xk},class<labrea.types.Evaluatable>)")
                 v = verdict.setdefault(e.line, [True, xk])
@@ -471,7 +509,7 @@ def rule_VW(run: Run) -> RuleResult:
                     f"Value({xk_[:60]}) is built on a path that has not established isinstance(…, Evaluatable) is false (an earlier test — callable(x), isinstance(x, type) — "
                     "that an expression can satisfy too took it)", nec)
     res.count("sites", n)
-    if n < 4:
+    if n < 2:
         raise AnalysisError(f"R-VW: only {n} Value(x) constructions of a variable found")
     return res
 
